@@ -309,6 +309,8 @@ func checkC04(c *Ctx) {
 	}
 	c.Floor["R04.2"] = 2
 	c.Floor["R04.1"] = 4
+	c.Floor["R04.9"] = 1
+	c.Floor["R05.10"] = 30
 }
 
 func c04Escaper(c *Ctx, p *Prog, m *Model, mr *ModeReach) {
@@ -455,7 +457,7 @@ func c04Escaper(c *Ctx, p *Prog, m *Model, mr *ModeReach) {
 		stores := 0
 		for _, fn := range p.RepoFuncs() {
 			for _, gs := range globalStores(fn) {
-				if nm(gs.G) == "hex" && nm(fn) != "init" {
+				if nm(gs.G) == "hex" && !p.startupOnly(fn) {
 					stores++
 				}
 			}
@@ -776,14 +778,46 @@ func c04Members(c *Ctx, p *Prog, m *Model, mr *ModeReach) {
 		if scan(blk, idx) {
 			return ""
 		}
-		seen := map[*ssa.BasicBlock]bool{}
 		var why string
+		steps := 0
+		onPath := map[*ssa.BasicBlock]bool{}
+		path := []*ssa.BasicBlock{blk}
+		succsOf := func(b *ssa.BasicBlock) []*ssa.BasicBlock {
+			if iff := ifOf(b); iff != nil {
+				// a short-circuit value (a phi of booleans) is decided by the path that led here
+				cond, neg := normCond(iff.Cond)
+				if _, isPhi := cond.(*ssa.Phi); isPhi {
+					c2, neg2 := normCond(resolveAlong(cond, path))
+					if neg2 {
+						neg = !neg
+					}
+					if cb, ok := constBool(c2); ok {
+						if cb != neg {
+							return b.Succs[:1]
+						}
+						return b.Succs[1:2]
+					}
+					if v, ok := modeCond(c2, mr.Mode); ok {
+						if v != neg {
+							return b.Succs[:1]
+						}
+						return b.Succs[1:2]
+					}
+				}
+			}
+			return feasibleSuccs(b, mr.Mode)
+		}
 		var dfs func(b *ssa.BasicBlock)
 		dfs = func(b *ssa.BasicBlock) {
 			if why != "" {
 				return
 			}
-			succs := feasibleSuccs(b, mr.Mode)
+			steps++
+			if steps > 200000 {
+				why = "the paths could not be enumerated"
+				return
+			}
+			succs := succsOf(b)
 			if len(succs) == 0 {
 				if _, isPanic := b.Instrs[len(b.Instrs)-1].(*ssa.Panic); !isPanic {
 					why = "the function is left"
@@ -795,14 +829,17 @@ func c04Members(c *Ctx, p *Prog, m *Model, mr *ModeReach) {
 					why = "the loop goes on to the next element"
 					return
 				}
-				if seen[s] {
+				if onPath[s] {
 					continue
 				}
-				seen[s] = true
 				if scan(s, 0) {
 					continue
 				}
+				onPath[s] = true
+				path = append(path, s)
 				dfs(s)
+				path = path[:len(path)-1]
+				delete(onPath, s)
 			}
 		}
 		dfs(blk)
@@ -815,7 +852,7 @@ func c04Members(c *Ctx, p *Prog, m *Model, mr *ModeReach) {
 			continue
 		}
 		switch {
-		case calleeOf(cs) == comma && inLoop(cs.Block()):
+		case calleeOf(cs) != nil && !isValue(cs) && !isKey(cs) && reaches(calleeOf(cs), comma, 0) && inLoop(cs.Block()):
 			n++
 			if why := escapes(cs, isKey); why != "" {
 				probs = append(probs, fmt.Sprintf("after the member separator at %s %s without a key having been written", p.Pos(instrPos(cs)), why))
